@@ -15,7 +15,8 @@ def _corr_skip(op, impl, model):
 PROP = dict(
     lean_modules=["Octo.Props.C30"],
     gen=["sqlformat"],
-    required_theorems=["Octo.C30.C30_partial"],
+    required_theorems=["Octo.C30.roundtrip_fuel", "Octo.C30.depth_le_tokens", "Octo.C30.roundtrip", "Octo.C30.roundtrip_expr",
+                       "Octo.C30.roundtrip_table", "Octo.C30.C30_refuted", "Octo.C30.C30_partial"],
     nontrivial=_nontrivial,
     corr_skip=_corr_skip,
     rule="ops: SQL texts (fixed witnesses, the vendored parser tests' SELECT texts, grammar-generated statements of the "
